@@ -5,7 +5,7 @@ import ast
 
 from ..model import (AnalysisError, U, Defs, FuncNode, call_name, walk_fn, kwarg, enclosing,
                      enclosing_stmt, parents, short, fn_of, always_exits as common_always_exits)
-from ..symex import Symex, Obj, ClassRef, Ext, _freeze
+from ..symex import Symex, Obj, ClassRef, Ext, Func, Raised, _freeze
 from ..terms import T, sym, show, subterms, calls, strip, expand_products, args_of, t_cmp, t_not
 from . import common
 from . import c08
@@ -40,8 +40,14 @@ EXPLANATION = (
     "tensor-name parameter; functions that read the registry of intermediates are evaluated and every look-up key derived "
     "from longname() must ask for default names. R19d: TensorNames evaluated: dataclass(frozen=True, slots=True), Singleton "
     "metaclass, one module-level instance = _from_config() = TensorNames(**json), defaults() = {field.name: field.default}; no "
-    "attribute store / setattr on the instance (through any import alias) in the package. R19e: index registry ownership and "
-    "request histories (R08c/R08d of C08). R19f: alias flow from every use of a cached method/property whose result is a mutable "
+    "attribute store / setattr on the instance (through any import alias) in the package. R19e: the code of Indices is evaluated "
+    "on concrete registry states for all request histories up to depth 3 over an alphabet of generic and named requests "
+    "(names of the current, the next and no generation): a named request returns the one object of its name (stability), a "
+    "generic request never returns an object handed out earlier in the history (freshness); registry ownership and the "
+    "complete model check of the registry are R08c/R08d of C08, run here as well. R19i: cached_member and cached_property are "
+    "evaluated on a method model that counts its evaluations, for call sequences over two instances, two methods, positional/"
+    "keyword/default spellings: a result is reused only for the same instance, method and fully bound arguments, equal "
+    "requests are evaluated once, the method receives the requested arguments. R19f: alias flow from every use of a cached method/property whose result is a mutable "
     "container (names, walrus, conditional expressions, reaching definitions) to in-place mutations (mutator methods, item/"
     "attribute stores, augmented assignment, arguments of repository functions that mutate the bound parameter); cached "
     "derivation methods return immutable sympy objects on every evaluated path.")
@@ -53,6 +59,8 @@ ASSUMPTIONS = [
     "order taint does not follow values through calls of other repository functions (an argument is a sink) nor through "
     "attributes of self; set-valued dict entries (d[k] being a set) are not typed as unordered",
     "call-graph closure resolves attribute calls by method name over the whole package (over-approximation)",
+    "R19e explores histories of depth <= 3 with spin-free occupied requests; R19i models inspect.signature/bind/apply_defaults, "
+    "functools.wraps and property by reference implementations",
     "tensor-name typing: `.name` reads, names bound from them and derived tensor-name parameters; literals built by "
     "str.join/replace or read from files are not tracked",
 ]
@@ -1830,6 +1838,155 @@ def r19d(ctx):
         ctx.ok(rule, None, "no attribute store on tensor_names in the package", fn="package", key="no store")
 
 
+# ====================================================================== R19i
+# The caches themselves: cached_member / cached_property are evaluated on a model of a method that counts its evaluations;
+# the sequence of calls is compared with a reference memo keyed by (instance, method, fully bound arguments).
+
+class _Callee(Obj):
+    """the decorated function: logs every evaluation and returns a distinguishable result"""
+
+    def __init__(self, name, params=(), defaults=None):
+        super().__init__(None, name)
+        self.attrs.update(__name__=name, __doc__=None, __qualname__=name, __module__="m", __dict__={}, __wrapped__=None)
+        self.__dict__["params"], self.__dict__["defaults"], self.__dict__["log"] = list(params), dict(defaults or {}), []
+
+    def __call__(self, sx, args, kw):
+        inst = args[0]
+        self.log.append((inst.name if isinstance(inst, Obj) else inst, tuple(args[1:]), tuple(sorted(kw.items()))))
+        return ("result", self.name, len(self.log))
+
+
+def _signature_hook(sx, a, kw):
+    """inspect.signature of a _Callee: bind / apply_defaults as Python does"""
+    f = a[0]
+    names = ["self"] + list(f.params)
+    sig = Obj(None, f"signature:{f.name}")
+    sig.attrs["parameters"] = {}        # the kinds of the parameters (keyword-only refused) are not the subject here
+
+    def bind(sx2, a2, kw2):
+        if len(a2) > len(names):
+            raise Raised("TypeError")
+        vals = dict(zip(names, a2))
+        for k, v in kw2.items():
+            if k in vals or k not in names:
+                raise Raised("TypeError")
+            vals[k] = v
+        if any(n not in vals and n not in f.defaults for n in names):
+            raise Raised("TypeError")
+        ba = Obj(None, "bound_arguments")
+
+        def refresh():
+            given = [n for n in names if n in vals]
+            # positional-or-keyword parameters are reported positionally up to the first missing one
+            pos = []
+            for n in names:
+                if n not in vals:
+                    break
+                pos.append(vals[n])
+            ba.attrs["args"] = tuple(pos)
+            ba.attrs["kwargs"] = {n: vals[n] for n in given[len(pos):]}
+            ba.attrs["arguments"] = dict(vals)
+
+        def apply_defaults(sx3, a3, kw3):
+            for k, v in f.defaults.items():
+                vals.setdefault(k, v)
+            refresh()
+        refresh()
+        ba.attrs["apply_defaults"] = apply_defaults
+        return ba
+    sig.attrs["bind"] = bind
+    return sig
+
+
+def _cache_attr_hook(sx, obj, attr, node):
+    if isinstance(obj, Obj) and not isinstance(obj, _Callee) and attr.startswith("_") and not attr.startswith("__"):
+        raise Raised("AttributeError")      # instances start without any private cache attribute
+    return NotImplemented
+
+
+def r19i(ctx):
+    rule = "R19i"
+    hooks = {"signature": _signature_hook, "inspect.signature": _signature_hook,
+             "wraps": lambda s, a, k: (lambda s2, a2, k2: a2[0]), "property": lambda s, a, k: a[0] if a else k.get("fget")}
+    sx = Symex(ctx.model, inline=lambda q: q.startswith("misc:"), hooks=hooks, attr_hook=_cache_attr_hook, what="caches", max_paths=64)
+
+    def decorate(ref, callee):
+        outs = sx.run(ref, lambda: dict(function=callee))
+        if len(outs) != 1 or outs[0].kind != "return" or not isinstance(outs[0].value, Func):
+            raise AnalysisError(f"R19i: {ref} does not evaluate to one wrapper function: {outs}")
+        return outs[0].value
+
+    def call(w, inst, *a, **k):
+        sx.frames, sx.module, sx.prefix, sx.decisions, sx.facts, sx.path, sx.effects, sx.steps, sx.depth = [], None, [], [], {}, [], [], 0, 0
+        try:
+            return sx.call_value(w, [inst] + list(a), dict(k), None)
+        except Raised as e:
+            return ("raised", e.name)
+
+    # ---- cached_member
+    fn = ctx.model.fn("misc:cached_member")
+    f = _Callee("energy", ["order", "space"], {"space": "ph"})
+    g = _Callee("overlap", ["order", "space"], {"space": "ph"})
+    wf, wg = decorate("misc:cached_member", f), decorate("misc:cached_member", g)
+    i1, i2 = Obj(None, "instance1"), Obj(None, "instance2")
+    seq = [(wf, f, i1, (1,), {}), (wf, f, i1, (), {"order": 1}), (wf, f, i1, (1, "ph"), {}), (wf, f, i1, (1,), {"space": "ph"}),
+           (wf, f, i1, (1, "pphh"), {}), (wf, f, i2, (1,), {}), (wg, g, i1, (1,), {}), (wf, f, i1, (2,), {}), (wf, f, i1, (1,), {}),
+           (wg, g, i2, (), {"space": "ph", "order": 1}), (wf, f, i2, (1, "ph"), {}), (wg, g, i1, (1, "ph"), {})]
+    memo, wrong_hit, missed, wrong_args = {}, [], [], []
+    for w, c, inst, a, k in seq:
+        full = dict(zip(c.params, a))
+        full.update(k)
+        for p, d in c.defaults.items():
+            full.setdefault(p, d)
+        key = (inst.name, c.name, tuple(full[p] for p in c.params))
+        n0 = len(c.log)
+        r = call(w, inst, *a, **k)
+        evaluated = len(c.log) > n0
+        desc = f"{c.name}({', '.join(map(repr, a))}{', ' if a and k else ''}{', '.join(f'{x}={y!r}' for x, y in k.items())}) on {inst.name}"
+        if key in memo:
+            if evaluated:
+                missed.append(desc)
+            elif r != memo[key]:
+                wrong_hit.append((desc, r, memo[key]))
+        else:
+            if not evaluated:
+                wrong_hit.append((desc, r, "a new evaluation"))
+            else:
+                got = c.log[-1]
+                if got[0] != inst.name or tuple(got[1]) + tuple(v for _, v in got[2]) != key[2] and \
+                        dict(zip(c.params, got[1]), **dict(got[2])) != full:
+                    wrong_args.append((desc, got))
+            memo[key] = r
+    ctx.check(rule, fn, not wrong_hit, "cached_member: a result is only reused for the same instance, method and fully bound arguments",
+              f"cached_member returns {wrong_hit[0][1] if wrong_hit else ''} for the request {wrong_hit[0][0] if wrong_hit else ''}; expected "
+              f"{wrong_hit[0][2] if wrong_hit else ''}: the result depends on which requests preceded it", key="member sound")
+    ctx.check(rule, fn, not missed, "cached_member: positional/keyword spelling and omitted defaults address the same entry",
+              f"cached_member evaluates the method again for {missed[:2]}: equal requests yield distinct objects", key="member complete")
+    ctx.check(rule, fn, not wrong_args, "cached_member: the method is evaluated with the requested arguments",
+              f"cached_member evaluates {wrong_args[0] if wrong_args else ''}", key="member arguments")
+    # ---- cached_property
+    fn = ctx.model.fn("misc:cached_property")
+    p, q = _Callee("prefactor"), _Callee("idx")
+    gp, gq = decorate("misc:cached_property", p), decorate("misc:cached_property", q)
+    j1, j2 = Obj(None, "instance1"), Obj(None, "instance2")
+    memo, wrong_hit, missed = {}, [], []
+    for w, c, inst in [(gp, p, j1), (gp, p, j1), (gq, q, j1), (gp, p, j2), (gq, q, j1), (gq, q, j2), (gp, p, j2), (gp, p, j1)]:
+        key = (inst.name, c.name)
+        n0 = len(c.log)
+        r = call(w, inst)
+        evaluated = len(c.log) > n0
+        if key in memo and evaluated:
+            missed.append(f"{c.name} of {inst.name}")
+        elif key in memo and r != memo[key] or key not in memo and not evaluated:
+            wrong_hit.append((f"{c.name} of {inst.name}", r, memo.get(key, "a new evaluation")))
+        memo.setdefault(key, r)
+    ctx.check(rule, fn, not wrong_hit, "cached_property: a value is only reused for the same instance and property",
+              f"cached_property returns {wrong_hit[0][1] if wrong_hit else ''} for {wrong_hit[0][0] if wrong_hit else ''}; expected "
+              f"{wrong_hit[0][2] if wrong_hit else ''}", key="property sound")
+    ctx.check(rule, fn, not missed, "cached_property: evaluated once per instance", f"cached_property evaluates {missed[:2]} again",
+              key="property complete")
+
+
 # ====================================================================== R19f
 # Objects handed out by a cache are shared by all later callers: alias flow from every use of a cached method/property
 # with a mutable result to in-place mutations (mutator methods, item/attribute stores, augmented assignment, passing to
@@ -2055,6 +2212,8 @@ def run(ctx):
         c08.r08d(ctx)
     if ctx.want("R19f"):
         r19f(ctx)
+    if ctx.want("R19i"):
+        r19i(ctx)
 
 
 def run_thorough(ctx):
